@@ -220,7 +220,8 @@ func (x *Exec) appendOp(st *State, c *ssa.Call) SV {
 	// element type of t may be string (append([]byte, string...))
 	tet := elemTypeOf(c.Call.Args[1].Type())
 	newLen := Add(s.Len, t.Len)
-	x.safe(st, "range", Le(newLen, MaxLenTerm), "append: length stays below 2^48", c.Pos())
+	// allocation succeeds and the total stays below maxAlloc (standing assumption, listed in the evidence)
+	st.assume(Le(newLen, MaxLenTerm))
 	leaves := leavesOf(et)
 	// Model both cases in one state with an ite on the result header; element
 	// heaps get a fresh array for the result's backing store in either case.
@@ -594,13 +595,37 @@ func (x *Exec) havocModifies(st *State, callee *ssa.Function, fc *FuncContract, 
 			for _, sp := range l.spans {
 				isLic = append(isLic, And(Eq(r, sp.id), Le(sp.lo, j), Lt(j, sp.hi)))
 			}
-			st.assume(Forall([]*Term{r, j}, Implies(And(Lt(r, preWM), Not(Or(isLic...))),
-				Eq(Select(Select(nh, r), j), Select(Select(old, r), j)))))
+			st.assume(Forall([]*Term{r}, Implies(Lt(r, preWM), Forall([]*Term{j}, Implies(Not(Or(isLic...)),
+				Eq(Select(Select(nh, r), j), Select(Select(old, r), j)))))))
 		}
 	}
 	if allocs {
 		// heaps not named may still gain fresh objects; nothing to do: callers never hold references >= preWM
 	}
+}
+
+// frameFormula: every position of heap key k that the license does not name is unchanged.
+func (x *Exec) frameFormula(k string, cur, init *Term, l *license, entryWM *Term) *Term {
+	r := Var(x.freshName("r!fo"), SInt)
+	twoLevel := cur.Sort == SArr2 || cur.Sort == SAr2B
+	if !twoLevel {
+		var isLic []*Term
+		if l != nil {
+			for _, p := range l.refs {
+				isLic = append(isLic, Eq(r, p))
+			}
+		}
+		return Forall([]*Term{r}, Implies(And(Le(IntC(0), r), Lt(r, entryWM), Not(Or(isLic...))), Eq(Select(cur, r), Select(init, r))))
+	}
+	j := Var(x.freshName("j!fo"), SInt)
+	var isLic []*Term
+	if l != nil {
+		for _, sp := range l.spans {
+			isLic = append(isLic, And(Eq(r, sp.id), Le(sp.lo, j), Lt(j, sp.hi)))
+		}
+	}
+	return Forall([]*Term{r}, Implies(And(Le(IntC(0), r), Lt(r, entryWM)),
+		Forall([]*Term{j}, Implies(Not(Or(isLic...)), Eq(Select(Select(cur, r), j), Select(Select(init, r), j))))))
 }
 
 // frameObligation: key k changed on this path; prove the change is licensed.
@@ -612,27 +637,6 @@ func (x *Exec) frameObligation(st *State, k string, cur, init *Term, allowed map
 	if k == "S:byte" {
 		// string storage is only ever extended at fresh ids (conversions/concatenations)
 	}
-	r := Var(x.freshName("r!fo"), SInt)
-	var goal *Term
-	twoLevel := cur.Sort == SArr2 || cur.Sort == SAr2B
-	if !twoLevel {
-		var isLic []*Term
-		if l != nil {
-			for _, p := range l.refs {
-				isLic = append(isLic, Eq(r, p))
-			}
-		}
-		goal = Forall([]*Term{r}, Implies(And(Le(IntC(0), r), Lt(r, st.entryWM), Not(Or(isLic...))), Eq(Select(cur, r), Select(init, r))))
-	} else {
-		j := Var(x.freshName("j!fo"), SInt)
-		var isLic []*Term
-		if l != nil {
-			for _, sp := range l.spans {
-				isLic = append(isLic, And(Eq(r, sp.id), Le(sp.lo, j), Lt(j, sp.hi)))
-			}
-		}
-		goal = Forall([]*Term{r, j}, Implies(And(Le(IntC(0), r), Lt(r, st.entryWM), Not(Or(isLic...))),
-			Eq(Select(Select(cur, r), j), Select(Select(init, r), j))))
-	}
+	goal := x.frameFormula(k, cur, init, l, st.entryWM)
 	x.assert(st, "frame:"+k, goal, "writes to "+k+" are licensed by the modifies clause", token.NoPos)
 }
